@@ -25,6 +25,7 @@ def handle (line : String) : String :=
   | "KYX" :: r => runKy ("KYX" :: r)
   | "CP" :: fl :: m :: h :: cl :: _ => runCP fl m h cl
   | "CE" :: fl :: m :: h :: cl :: _ => runCE fl m h cl
+  | "FD" :: b :: _ => runFD b
   | "RD" :: r => runDict ("RD" :: r)
   | "WJ" :: r => runDict ("WJ" :: r)
   | "WP" :: r => runDict ("WP" :: r)
